@@ -56,7 +56,7 @@ RULE = ('test: command lines generated option by option (each scope option on/of
         'ftpcrawl: one case = one FTP crawl from a command-line URL (16 start shapes incl. glob patterns matching files, directories or both) '
         'x {-r} x {-l 1,2,3,inf} x a few reject rules x glob on/off, up to 14 items each; non-trivial = at least 2 requests. '
         'crawl: one case = one end-to-end crawl (5 origins: start host, forbidden host, other port, https port, www.; '
-        'links, page requisites, iframes (embedded HTML documents with plain links and further requisites) and 1-2 hop redirects across them; requests are judged under the record implied by the link kinds along the path; 1-3 workers; robots on in ~25%); non-trivial = at least 2 page requests.')
+        'links, page requisites, iframes (embedded HTML documents with plain links and further requisites) and 1-2 hop redirects across them; sitemap.xml / robots.txt Sitemap: lines with --sitemaps in 25%; requests are judged under the record implied by the true provenance (which item offered the URL) and the link kinds along the path; 1-3 workers; robots on in ~25%); non-trivial = at least 2 page requests.')
 TRUSTED = ['the `re` engine and `fnmatch` are oracles of the model: their results are logged from the real calls and handed to the model',
            'URL parsing (URLInfo.parse) is engine Url\'s business: filters receive the parsed fields',
            'harness/fakenet.py in-memory transports (web/ftp session streams)',
@@ -1496,6 +1496,18 @@ def gen_crawl_site(rng):
         r = rng.random()
         if r < 0.5:
             site[h]['/robots.txt'] = {'kind': 'robots', 'body': 'User-agent: *\nDisallow: %s\n' % rng.choice(['/none', '/e/', '/d/sub/', '/'])}
+    # what --sitemaps looks at: /sitemap.xml (and a second one named by robots.txt) listing pages in and outside the start
+    # directory, on and off the start host, some of them linked from nowhere else
+    site['a.test']['/e/only-in-sitemap.html'] = {'kind': 'html', 'links': [('/e/p4.html', False), ('/d/a.png', True)]}
+    site['a.test']['/d/sm-listed.html'] = {'kind': 'leaf'}
+    site['a.test']['/sitemap.xml'] = {'kind': 'sitemap', 'links': [(u, False) for u in
+        ['http://a.test/e/only-in-sitemap.html', 'http://a.test/d/sm-listed.html'] + rng.sample(pool, 2)]}
+    if rng.random() < 0.5:
+        body = site['a.test'].get('/robots.txt', {'body': 'User-agent: *\nDisallow: /none\n'})['body']
+        site['a.test']['/robots.txt'] = {'kind': 'robots', 'body': body + 'Sitemap: http://a.test/sm2.xml\n',
+                                         'links': [('http://a.test/sm2.xml', False)]}
+        site['a.test']['/sm2.xml'] = {'kind': 'sitemap', 'links': [(u, False) for u in ['http://a.test/cgi-bin/q', 'http://a.test/d/p2.html',
+                                                                                       'http://b.test/y.html']]}
     return site, 'http://a.test' + start
 
 
@@ -1548,6 +1560,8 @@ def gen_crawl_extra(rng):
         a.append('--no-strong-redirects')
     if rng.random() < 0.75:
         a.append('--no-robots')
+    if rng.random() < 0.25:
+        a.append('--sitemaps')
     return a
 
 
@@ -1567,6 +1581,10 @@ def _cr_server(site):
                 out[h][t] = Page(200, b'leaf data', ctype=p.get('ctype', 'text/plain'))
             elif k == 'robots':
                 out[h][t] = Page(200, p['body'].encode(), ctype='text/plain')
+            elif k == 'sitemap':
+                body = ('<?xml version="1.0" encoding="UTF-8"?><urlset xmlns="http://www.sitemaps.org/schemas/sitemap/0.9">'
+                        + ''.join('<url><loc>%s</loc></url>' % r for r, _ in p['links']) + '</urlset>')
+                out[h][t] = Page(200, body.encode(), ctype='application/xml')
             elif k == 'redirect':
                 out[h][t] = Page(p.get('code', 301), b'', location=p['location'])
             else:
@@ -1602,11 +1620,20 @@ def _crawl_work(case):
         merged.append({'op': 'fetch', 'item': self._item_session.url_record.url, 'url': request.url_info.url})
         return orig_fetch_one(self, request)
     pw.WebProcessorSession._fetch_one = fetch_one
+    import wpull.pipeline.session as ps
+    orig_add_url = ps.ItemSession.add_url
+
+    def add_url(self, url, *a, **k):
+        # the true provenance of every queued URL: which item offered it (whatever record gets stored for it)
+        merged.append({'op': 'link', 'item': self.url_record.url, 'url': url})
+        return orig_add_url(self, url, *a, **k)
+    ps.ItemSession.add_url = add_url
     try:
         res = appsim.run_crawl([start], _cr_server(site), seed=seed, concurrent=conc, extra=extra,
                                on_table_event=lambda ev: merged.append(dict(ev)), ports=CR_PORTS)
     finally:
         pw.WebProcessorSession._fetch_one = orig_fetch_one
+        ps.ItemSession.add_url = orig_add_url
     args = parse_args(appsim.default_argv([start], 'x.db', 'out', conc, extra))
     hostnames = [parse(start).hostname]
     demux = real_build(args, hostnames)
@@ -1634,9 +1661,15 @@ def _crawl_work(case):
                     kinds.add(bool(kind))
             except ValueError:
                 pass
+        if not kinds and args.sitemaps:
+            # --sitemaps: robots.txt and sitemap.xml of the origin are (plain) links of every command-line URL
+            pu = parse(parent)
+            if child in (parse('%s://%s/robots.txt' % (pu.scheme, pu.hostname_with_port)).url,
+                         parse('%s://%s/sitemap.xml' % (pu.scheme, pu.hostname_with_port)).url):
+                kinds.add(False)
         return kinds
     added, out_rec, hops, fetched_items = {}, {}, {}, set()
-    true_rec = {parse(start).url: {'level': 0, 'inline_level': None}}
+    true_rec = {parse(start).url: {'level': 0, 'inline_level': None, 'parent_url': None, 'root_url': None}}
     fetches, candidates, skips, checkouts, children = [], [], [], [], []
     with CallLog() as log:
         def judge_one(url, rec, flag, trec):
@@ -1648,29 +1681,49 @@ def _crawl_work(case):
 
         def true_of(u, rec):
             t = true_rec.get(u)
-            return dict(rec, level=t['level'], inline_level=t['inline_level']) if t else dict(rec)
+            return dict(rec, level=t['level'], inline_level=t['inline_level'], parent_url=t['parent_url'],
+                        root_url=t['root_url']) if t else dict(rec)
         first_batch = True
+        pending = {}
         for e in merged:
             op = e['op']
-            if op == 'add_many':
+            if op == 'link':
+                try:
+                    pending.setdefault(e['item'], []).append(parse(e['url']).url)
+                except ValueError:
+                    pass
+            elif op == 'add_many':
+                burls = [b['url'] for b in e['batch']]
+                # whose batch is this?  the item whose not yet flushed offers begin with exactly these URLs
+                owner = None
+                if burls and not first_batch:
+                    for it, lst in pending.items():
+                        if [parse(x).url for x in burls] == lst[:len(burls)]:
+                            owner = it
+                            del lst[:len(burls)]
+                            break
                 for b in e['batch']:
                     if b['url'] in e['inserted'] and b['url'] not in added:
                         added[b['url']] = b
-                        par = b.get('parent')
-                        if first_batch or par is None:
-                            true_rec.setdefault(b['url'], {'level': 0, 'inline_level': None})
+                        if first_batch:
+                            true_rec.setdefault(b['url'], {'level': 0, 'inline_level': None, 'parent_url': None, 'root_url': None})
                             continue
-                        kinds = link_kinds(par, b['url'])
+                        par = owner or b.get('parent')
+                        kinds = link_kinds(par, b['url']) if par else set()
                         pt, pst = true_rec.get(par), out_rec.get(par)
-                        if len(kinds) != 1 or pt is None or pst is None:
-                            # linked both ways from one page / not a link of the generated page: take the stored kind
-                            true_rec[b['url']] = {'level': b.get('level'), 'inline_level': b.get('inline_level'), 'ambiguous': True}
+                        if len(kinds) != 1 or pt is None or pst is None or pt.get('ambiguous'):
+                            # linked both ways from one page / not a link of the generated page: take the stored record
+                            true_rec[b['url']] = {'level': b.get('level'), 'inline_level': b.get('inline_level'),
+                                                  'parent_url': b.get('parent'), 'root_url': b.get('root'), 'ambiguous': True}
                             continue
                         inline = kinds.pop()
                         true_rec[b['url']] = {'level': pt['level'] + 1,
-                                              'inline_level': ((pt['inline_level'] or 0) + 1) if inline else None}
+                                              'inline_level': ((pt['inline_level'] or 0) + 1) if inline else None,
+                                              'parent_url': par, 'root_url': pt['root_url'] or par}
                         children.append({'parent': par, 'parent_level': pst['level'], 'parent_inline': pst['inline_level'],
-                                         'inline': inline, 'child': b['url'], 'level': b.get('level'), 'inline_level': b.get('inline_level')})
+                                         'inline': inline, 'child': b['url'], 'level': b.get('level'), 'inline_level': b.get('inline_level'),
+                                         'stored_parent': b.get('parent'), 'stored_root': b.get('root'),
+                                         'want_parent': par, 'want_root': pst['root_url'] or par})
                 first_batch = False
             elif op == 'check_out' and e.get('got'):
                 u = e['got']
@@ -1733,8 +1786,16 @@ def run_crawl_cases(ctx, cases):
         # ---- the record stored for every scraped link = the model's child record for the link's kind
         for ci, ch in enumerate(r['children']):
             real = '%s %s' % (ch['level'], 'None' if ch['inline_level'] is None else ch['inline_level'])
-            if child_reply_of[(ri, ci)] != real:
-                ctx.disagree('httpchild', dict(case, link=ch), child_reply_of[(ri, ci)], real)
+            if child_reply_of[(ri, ci)] != real or ch['stored_parent'] != ch['want_parent'] or ch['stored_root'] != ch['want_root']:
+                ctx.disagree('httpchild', dict(case, link=ch),
+                             '%s parent=%s root=%s' % (child_reply_of[(ri, ci)], ch['want_parent'], ch['want_root']),
+                             '%s parent=%s root=%s' % (real, ch['stored_parent'], ch['stored_root']))
+        if any(ch['parent'].endswith(('/sitemap.xml', '/sm2.xml')) for ch in r['children']):
+            ctx.tag('crawl:links-from-sitemap')
+        if any(ch['child'].endswith('/sitemap.xml') for ch in r['children']):
+            ctx.tag('crawl:sitemap-queued')
+        if any(f['url'].endswith('/sitemap.xml') for f in r['fetches']):
+            ctx.tag('crawl:sitemap-requested')
         if any(ch['inline'] and ch['parent_inline'] for ch in r['children']):
             ctx.tag('crawl:nested-requisite')
         if any((not ch['inline']) and ch['parent_inline'] for ch in r['children']):
@@ -2015,7 +2076,8 @@ def run(ctx):
     crng = ctx.subrng('crawl')
     ccases = [gen_crawl_case(crng) for _ in range(ctx.scale(34, 1000))]
     # the rules that are relaxed for page requisites, on sites whose embedded documents carry plain links
-    for extra in (['-r', '-p', '--no-parent'], ['-r', '-p', '--span-hosts-allow', 'page-requisites'], ['-r', '-p', '-l', '1']):
+    for extra in (['-r', '-p', '--no-parent'], ['-r', '-p', '--span-hosts-allow', 'page-requisites'], ['-r', '-p', '-l', '1'],
+                  ['-r', '--no-parent', '--sitemaps'], ['--sitemaps'], ['-r', '-l', '1', '--sitemaps']):
         for _ in range(ctx.scale(2, 10)):
             cc_ = gen_crawl_case(crng)
             cc_['extra'] = ['--no-check-certificate', '--no-robots'] + extra
